@@ -81,7 +81,9 @@ def run(ctx):
     ctx.trust("os.replace is atomic within a file system", "files adopted on start-up must end with the cache postfix (C18 R18.3)")
     cache_cls = p.get_class(FC)
     gi = p.get_method(FC, "__getitem__")
-    gm = p.get_method(FC, "get_cache_misses")
+    from .fc import inline_value_calls
+    from .c18 import CACHE_VOCABULARY
+    gm = inline_value_calls(p, p.get_method(FC, "get_cache_misses"), keep=CACHE_VOCABULARY)      # private helpers are seen through
     dl = p.get_function(FCM + "._download_from_resources")
     worker = p.nested_function(dl, "_worker")
     if worker is None:
@@ -174,6 +176,13 @@ def run(ctx):
         txt = ast.unparse(test)
         if "_is_in_cache" in txt and not txt.startswith("not "):
             return True
+        if isinstance(test, ast.Call):
+            tv = value_truth(test, env)
+            if tv is not None:
+                return tv
+        if isinstance(test, ast.Compare) and len(test.ops) == 1 and isinstance(test.ops[0], ast.NotIn) \
+                and isinstance(test.left, ast.Constant) and test.left.value == "validate":
+            return False
         if isinstance(test, ast.Compare) and len(test.ops) == 1 and isinstance(test.ops[0], ast.In) \
                 and isinstance(test.left, ast.Constant) and test.left.value == "validate":
             return True
@@ -219,6 +228,7 @@ def run(ctx):
                 out += rejected_paths(st.orelse, env, events)
             return out
         if isinstance(st, ast.Try):
+            # the scenario's validator returns (it does not raise): the handlers are not taken
             return rejected_paths(st.body + st.orelse + st.finalbody, env, events)
         if isinstance(st, (ast.Continue, ast.Break, ast.Return)):
             return [(env, events + ["exit"])]
